@@ -1857,7 +1857,8 @@ def _empty_part_descs(ctx, n):
         spec = _empty_part_spec(e, c, x, two)
         params = {'z': 0, 'k': 0, 'n': rng.choice([1, 2, 3])}
         if rng.random() < 0.25:
-            params.update({'z': 0.5, 'k': 1})
+            # control: the body plays.  n <= 2 keeps the iterated durations z*(j + 1) powers of two (exact ramps)
+            params.update({'z': 0.5, 'k': 1, 'n': rng.choice([1, 2])})
         descs.append({'family': 'given', 'seed': i, 'label': 'empty-parts', 'n_gt': 1, 'max_all': 6, 'n_random': 10,
                       'case': {'spec': spec, 'params': params, 'cm': {}, 'mm': None, 'single': []}})
     return descs
